@@ -490,6 +490,10 @@ Definition run_C19 (inp : list Z) : list Z :=
                                     | None => [] end) ws in
       let dcmp := fun b => match assoc_bytes b brt with Some o => o | None => None end in
       match r4 with
+      | 6%Z :: _ =>
+        (* any other explorer route: whatever its handler returns (here: no policy of its own), the
+           layer leaves a non-empty policy list; only that is observed *)
+        [zb (match csp (csp_layer (mkResp 200 [] CNone None None BError)) with [] => false | _ => true end)]
       | route :: r5 =>
         let '(p, r6) :=
           match route with
